@@ -99,7 +99,31 @@ func cliAgreeStdin(o *Obs, what string, want string, stdin string, args ...strin
 	if stdin != "" {
 		o.Label("cli-arm:stdin")
 	}
+	// one run in three writes to -o FILE instead of stdout, and FILE already exists with older, longer content (a re-run over the
+	// previous result): the file must afterwards hold exactly the output. Chosen by a pure function of the case.
+	outfile := ""
+	if what != "sam toPairAlign" && !containsArg(args, "-o") && !containsArg(args, "--outfile") && (len(want)+len(args))%3 == 0 {
+		f, err := os.CreateTemp(scratchDir(), "cliout-*.txt")
+		if err == nil {
+			f.WriteString(strings.Repeat("stale line from an earlier run, must not survive\n", len(want)/40+3))
+			f.Close()
+			outfile = f.Name()
+			defer os.Remove(outfile)
+			args = append(append([]string{}, args...), "-o", outfile)
+			o.Label("cli-arm:existing-outfile")
+		}
+	}
 	r := runBin(30*time.Second, stdin, nil, args...)
+	if outfile != "" && !r.TimedOut && r.Exit == 0 {
+		b, err := os.ReadFile(outfile)
+		if err != nil {
+			return fmt.Errorf("%s: -o %s was not written: %v", what, outfile, err)
+		}
+		if r.Stdout != "" {
+			return fmt.Errorf("%s: with -o FILE the binary also wrote to stdout: %q", what, trunc(r.Stdout, 300))
+		}
+		r.Stdout = string(b)
+	}
 	stats.count("cli_runs", 1)
 	o.Label("cli-arm")
 	if r.TimedOut {
@@ -112,4 +136,13 @@ func cliAgreeStdin(o *Obs, what string, want string, stdin string, args ...strin
 		return fmt.Errorf("%s: command-line run differs from the (model-checked) library result: gofasta %s\n%s\n cli: %q\n lib: %q", what, strings.Join(args, " "), firstDiff(r.Stdout, want), trunc(r.Stdout, 600), trunc(want, 600))
 	}
 	return nil
+}
+
+func containsArg(args []string, a string) bool {
+	for _, x := range args {
+		if x == a {
+			return true
+		}
+	}
+	return false
 }
